@@ -3166,7 +3166,11 @@ func parseEgressRule(raw string) (EgressRule, bool) {
 		if err != nil {
 			return EgressRule{}, false
 		}
-		norm = ascii
+		// The mapping turns other full stops into ".": drop a trailing one.
+		norm = strings.TrimSuffix(ascii, ".")
+		if norm == "" {
+			return EgressRule{}, false
+		}
 	}
 	return EgressRule{Host: norm, Subdomains: subdomains}, true
 }
